@@ -1,6 +1,8 @@
 /-
 C20 — VMAP export followed by import returns the same mesh and fields; reading is repeatable; filtering by
-a stored set returns exactly its members; a failed export leaves no partial geometry or variable.
+a stored set returns exactly its members; a failed export leaves no partial geometry or variable; a valid
+export succeeds; identifiers outside int32 are refused; stored element types follow the table; variables,
+groups and sets persist; the importer's join steps hold on any session state.
 
 The theorems are about the model `Model/Vmap.lean` of `VMAPExport` / `VMAPImport` (abstract file; HDF5 is a
 store that returns what was written; ids are the integers the format stores).  `byElement rows` is the frame
@@ -8,6 +10,18 @@ ordered by element id with the row order inside every element kept; `roundtrip_m
 characterisation, so the later theorems can state "the frame read back is `byElement` of the exported frame".
 A *valid mesh frame* has pairwise distinct (element_id, node_id) pairs (`(rows.map Row.key).Nodup`); the
 hypothesis is stated where it is used.
+
+What the proofs add and what they do not.  Proof content: the stable-sort characterisation of the read-back order
+(`byElement_sorted/_filter/_perm`), the importer's mesh index = the exported connectivity (`meshIndex_connectivity`),
+the alignment of element nodal values with the rebuilt index under distinct keys (`varIndex = byElement keys`,
+`find_key_of_nodup`), `firstValid` on a per-node constant column (`node_value_is_own_cells`), the success theorems
+(`addGeometry_succeeds`, … : every check of the model passes for a valid call; the verdict does not depend on earlier
+calls) and the persistence / step theorems (a stored variable or set is read back after any later history, by any
+chain shape).  Near-definitional: `import_repeatable` (make_mesh overwrites the whole session), the three `failed_*`
+theorems (the model's error branches return the file they were given / delete the group they appended) and the
+`filter_*` theorems (look-up of an appended set).  For those clauses the tie to the real code is the correspondence
+check and the oracle (dump of the whole HDF5 file before/after every failing call, including storage failures
+injected after data were written), not the proof.
 -/
 import Proofs.Lemmas.Vmap
 
@@ -21,9 +35,9 @@ variable {V : Type}
 /-- **Round trip of the mesh.**  After a successful `add_geometry(name, frame)`, `make_mesh(name).to_frame()`
 on any importer state returns the rows of the frame ordered by element id (3rd line), with the node order of
 every element preserved (4th line); nothing is lost or duplicated (5th line). -/
-theorem roundtrip_mesh [BEq V] (dim : Nat) (f : File V) (name : String) (fr : Frame V)
-    (h : (addGeometry dim f name fr).2.2 = none) (s : Session V) (st : Option String) :
-    (readFrame (addGeometry dim f name fr).2.1 s [.makeMesh name st]).2
+theorem roundtrip_mesh [Cell V] (f : File V) (name : String) (fr : Frame V)
+    (h : (addGeometry f name fr).2 = none) (s : Session V) (st : Option String) :
+    (readFrame (addGeometry f name fr).1 s [.makeMesh name st]).2
         = .ok ([], (byElement fr.rows).map (fun r => (r.key, []))) ∧
       (byElement fr.rows).Pairwise (fun a b => a.eid ≤ b.eid) ∧
       (∀ e, (byElement fr.rows).filter (fun r => r.eid == e) = fr.rows.filter (fun r => r.eid == e)) ∧
@@ -32,54 +46,222 @@ theorem roundtrip_mesh [BEq V] (dim : Nat) (f : File V) (name : String) (fr : Fr
   refine ⟨?_, byElement_sorted _, fun e => byElement_filter _ e, byElement_perm _⟩
   simp [readFrame, runChain, impStep, hg, toFrame, hx.mesh, List.map_map, Function.comp_def]
 
-example : (addGeometry 2 (File.empty : File Nat) "g"
-    ⟨["x", "y", "z"], [⟨7, 1, [0, 0, 0]⟩, ⟨2, 5, [1, 0, 0]⟩, ⟨7, 2, [1, 1, 0]⟩, ⟨2, 1, [0, 0, 0]⟩,
-      ⟨7, 3, [0, 1, 0]⟩, ⟨2, 3, [0, 1, 0]⟩, ⟨2, 4, [2, 2, 0]⟩]⟩).2.2 = none := by decide
-
-theorem coordAt_exported {g : Geometry V} {fr : Frame V} {idx : List Nat} (hx : ExportedFrom g fr idx)
-    {r : Row V} (hr : r ∈ fr.rows) : coordAt g r.nid = some (nodeValue fr.rows idx r.nid) := by
+theorem coordAt_exported [Cell V] {g : Geometry V} {fr : Frame V} {idx : List Nat} (hx : ExportedFrom g fr idx)
+    {n : Int} (hn : n ∈ nodeIds fr) : coordAt g n = some (nodeValue fr.rows idx n) := by
   unfold coordAt
-  rw [hx.coords, lookup_zip_map, hx.ids, if_pos]
-  exact mem_sortU.2 (List.mem_map_of_mem hr)
+  rw [hx.coords, lookup_zip_map, hx.ids, if_pos hn]
+
+theorem nid_mem_nodeIds {fr : Frame V} {r : Row V} (hr : r ∈ fr.rows) : r.nid ∈ nodeIds fr :=
+  mem_sortU.2 (List.mem_map_of_mem hr)
 
 /-- **Round trip of the coordinates.**  `make_mesh(name).join_coordinates().to_frame()` returns, for every
-exported row (ordered as in `roundtrip_mesh`), the coordinate cells of the first frame row of its node
-(`groupby('node_id').first()`), under the column labels the exporter found (x, y and z if present). -/
-theorem roundtrip_coordinates [BEq V] (dim : Nat) (f : File V) (name : String) (fr : Frame V)
-    (h : (addGeometry dim f name fr).2.2 = none) (s : Session V) (st : Option String) :
+exported row (ordered as in `roundtrip_mesh`), the coordinate cells stored for its node
+(`groupby('node_id').first()`: per column the first non-missing cell of the node's rows), under the column
+labels the exporter found (x, y and z if present). -/
+theorem roundtrip_coordinates [Cell V] (f : File V) (name : String) (fr : Frame V)
+    (h : (addGeometry f name fr).2 = none) (s : Session V) (st : Option String) :
     ∃ idx, colIdx fr.cols (coordNames fr) = some idx ∧
-      (readFrame (addGeometry dim f name fr).2.1 s [.makeMesh name st, .joinCoords]).2
+      (readFrame (addGeometry f name fr).1 s [.makeMesh name st, .joinCoords]).2
         = .ok (coordNames fr,
             (byElement fr.rows).map (fun r => (r.key, (nodeValue fr.rows idx r.nid).map some))) := by
   obtain ⟨_, g, idx, hg, hx, _⟩ := addGeometry_ok h
   refine ⟨idx, hx.cidx, ?_⟩
   simp [readFrame, runChain, impStep, hg, toFrame, joinBlock, hx.mesh, hx.ncoord, List.map_map, Function.comp_def]
   intro a ha
-  have hc := coordAt_exported hx (mem_byElement.1 ha)
+  have hc := coordAt_exported hx (nid_mem_nodeIds (mem_byElement.1 ha))
   simp only [Row.key]
   rw [hc]; rfl
 
-/-- For a nodal field (the selected cells are the same in all rows of a node) "first row of the node" is
-the row itself: then `roundtrip_coordinates` / `roundtrip_node_variable` return every row's own cells. -/
-theorem first_row_is_own_row (rows : List (Row V)) (idx : List Nat)
-    (hcons : ∀ r ∈ rows, ∀ r' ∈ rows, r.nid = r'.nid → selRow idx r = selRow idx r')
+/-- For a nodal field (every selected column has the same cell in all rows of a node) the value stored for a node is
+every one of its rows' own cells. -/
+theorem node_value_is_own_cells [Cell V] (rows : List (Row V)) (idx : List Nat)
+    (hcons : ∀ r ∈ rows, ∀ r' ∈ rows, r.nid = r'.nid → ∀ i ∈ idx, r.vals[i]? = r'.vals[i]?)
     {r : Row V} (hr : r ∈ rows) : nodeValue rows idx r.nid = selRow idx r := by
-  unfold nodeValue firstRow
-  cases hf : rows.find? (fun x => x.nid == r.nid) with
+  unfold nodeValue selRow
+  apply List.filterMap_congr
+  intro i hi
+  unfold nodeCell
+  have hall : ∀ r' ∈ nodeRows rows r.nid, r'.vals[i]? = r.vals[i]? := by
+    intro r' hr'
+    unfold nodeRows at hr'
+    rw [List.mem_filter] at hr'
+    exact hcons r' hr'.1 r hr (by simpa using hr'.2) i hi
+  have hmem : r ∈ nodeRows rows r.nid := by
+    unfold nodeRows
+    rw [List.mem_filter]
+    exact ⟨hr, by simp⟩
+  cases hc : r.vals[i]? with
   | none =>
-    rw [List.find?_eq_none] at hf
-    have := hf r hr
-    simp at this
-  | some r' =>
-    have hmem := List.mem_of_find?_eq_some hf
-    have hkey : r'.nid = r.nid := by simpa using List.find?_some hf
-    exact hcons r' hmem r hr hkey
+    have : (nodeRows rows r.nid).filterMap (fun r => r.vals[i]?) = [] := by
+      rw [List.filterMap_eq_nil_iff]
+      intro r' hr'
+      rw [hall r' hr', hc]
+    rw [this]; rfl
+  | some c =>
+    apply firstValid_const
+    · intro hnil
+      rw [List.filterMap_eq_nil_iff] at hnil
+      have := hnil r hmem
+      rw [hc] at this
+      cases this
+    · intro x hx
+      rw [List.mem_filterMap] at hx
+      obtain ⟨r', hr', hx⟩ := hx
+      rw [hall r' hr', hc] at hx
+      exact (Option.some.inj hx).symm
+
+/-! ### Step theorems: one importer call on ANY session state -/
+
+/-- join_coordinates on ANY session state of geometry `geom` (after filters, after other joins): every mesh row gets the
+coordinates stored for its node. -/
+theorem joinCoords_step [Cell V] (f : File V) (geom : String) (g : Geometry V) (fr : Frame V) (cidx : List Nat)
+    (hg : f.geoms.lookup geom = some g) (hx : ExportedFrom g fr cidx)
+    (s : Session V) (labels : List String) (rows : MeshRows V) (hs : s.mesh = some (labels, rows)) (hgeo : s.geometry = geom)
+    (hdisj : (coordNames fr).any (fun l => labels.contains l) = false)
+    (hrows : ∀ r ∈ rows, r.1.2 ∈ nodeIds fr) :
+    impStep f s .joinCoords = ({ s with mesh := some (labels ++ coordNames fr,
+        rows.map (fun r => (r.1, r.2 ++ (nodeValue fr.rows cidx r.1.2).map some))) }, none) := by
+  subst hgeo
+  have hmap : rows.map (fun r => (r.1, r.2 ++ cellsOf g.ncoord (coordAt g r.1.2)))
+      = rows.map (fun r => (r.1, r.2 ++ (nodeValue fr.rows cidx r.1.2).map some)) := by
+    apply List.map_congr_left
+    intro r hr
+    rw [coordAt_exported hx (hrows r hr)]
+    rfl
+  simp only [impStep, hs, hg, joinBlock, hx.ncoord, hdisj, Bool.false_eq_true, if_false, hmap]
+
+/-- join_variable of a NODE variable stored earlier from `fr` (any calls may have followed), on any session state of that
+geometry. -/
+theorem joinVar_step_node_stored [Cell V] (f : File V) (state geom var : String) (fr : Frame V) (idx : List Nat)
+    (g : Geometry V) (hg : f.geoms.lookup geom = some g)
+    (hv : f.vars.lookup (state, geom, var) = some (buildVariable 2 fr idx)) (hgrp : (state, geom) ∈ f.groups)
+    (s : Session V) (labels : List String) (rows : MeshRows V) (hs : s.mesh = some (labels, rows)) (hgeo : s.geometry = geom)
+    (st : Option String) (hst : pickState st s.state = some state) (newLabels : List String)
+    (hdisj : newLabels.any (fun l => labels.contains l) = false) (hlen : newLabels.length = idx.length) :
+    impStep f s (.joinVar var st (some newLabels))
+      = ({ s with state := some state, mesh := some (labels ++ newLabels, rows.map (fun r => (r.1, r.2 ++
+          cellsOf idx.length (if r.1.2 ∈ nodeIds fr then some (nodeValue fr.rows idx r.1.2) else none)))) }, none) := by
+  subst hgeo
+  have hgrp' : f.groups.contains (state, s.geometry) = true := by simpa using hgrp
+  have hne : ¬ (newLabels.length ≠ idx.length) := by simp [hlen]
+  have hne2 : ¬ ((List.map (fun n => ((0 : Int), n)) (nodeIds fr)).length
+      ≠ (List.map (nodeValue fr.rows idx) (nodeIds fr)).length) := by simp
+  have hmap : rows.map (fun r => (r.1, r.2 ++ cellsOf idx.length
+        (((nodeIds fr).zip ((nodeIds fr).map (nodeValue fr.rows idx))).lookup r.1.2)))
+      = rows.map (fun r => (r.1, r.2 ++
+          cellsOf idx.length (if r.1.2 ∈ nodeIds fr then some (nodeValue fr.rows idx r.1.2) else none))) := by
+    apply List.map_congr_left
+    intro r _
+    rw [lookup_zip_map]
+  simp only [impStep, hs, hst, hg, hgrp', Bool.not_true, Bool.false_eq_true, if_false, resolveCols, hv,
+    buildVariable_two, if_true, hne, hne2, joinBlock, hdisj, varAt, hmap]
+
+/-- the same for an ELEMENT_NODAL variable: the cells of the frame row with the mesh row's (element, node) key. -/
+theorem joinVar_step_element_nodal_stored [Cell V] (f : File V) (state geom var : String) (fr : Frame V)
+    (idx : List Nat) (g : Geometry V) (cidx : List Nat)
+    (hg : f.geoms.lookup geom = some g) (hx : ExportedFrom g fr cidx)
+    (hv : f.vars.lookup (state, geom, var) = some (buildVariable 6 fr idx)) (hgrp : (state, geom) ∈ f.groups)
+    (s : Session V) (labels : List String) (rows : MeshRows V) (hs : s.mesh = some (labels, rows)) (hgeo : s.geometry = geom)
+    (st : Option String) (hst : pickState st s.state = some state) (newLabels : List String)
+    (hdisj : newLabels.any (fun l => labels.contains l) = false) (hlen : newLabels.length = idx.length) :
+    impStep f s (.joinVar var st (some newLabels))
+      = ({ s with state := some state, mesh := some (labels ++ newLabels, rows.map (fun r => (r.1, r.2 ++
+          cellsOf idx.length (((byElement fr.rows).find? (fun x => x.key == r.1)).map (selRow idx))))) }, none) := by
+  subst hgeo
+  have hgrp' : f.groups.contains (state, s.geometry) = true := by simpa using hgrp
+  have hne : ¬ (newLabels.length ≠ idx.length) := by simp [hlen]
+  -- the index the importer rebuilds is the exported frame grouped by element
+  have hidx : varIndex g ⟨6, idx.length, elemIds fr, (byElement fr.rows).map (selRow idx)⟩
+      = (byElement fr.rows).map Row.key := by
+    unfold varIndex
+    simp only [hx.mesh]
+    have : ∀ e, ((byElement fr.rows).map Row.key).filter (fun k => k.1 == e) = (elemRows fr.rows e).map Row.key := by
+      intro e
+      rw [← byElement_filter, List.filter_map]
+      rfl
+    simp only [this]
+    unfold byElement elemIds
+    rw [List.map_flatMap]
+  have hne2 : ¬ (((byElement fr.rows).map Row.key).length ≠ ((byElement fr.rows).map (selRow idx)).length) := by simp
+  have h62 : ¬ ((6 : Nat) = 2) := by decide
+  have hmap : rows.map (fun r => (r.1, r.2 ++ cellsOf idx.length
+        ((((byElement fr.rows).map Row.key).zip ((byElement fr.rows).map (selRow idx))).lookup r.1)))
+      = rows.map (fun r => (r.1, r.2 ++
+          cellsOf idx.length (((byElement fr.rows).find? (fun x => x.key == r.1)).map (selRow idx)))) := by
+    apply List.map_congr_left
+    intro r _
+    rw [lookup_zip_map_map]
+  simp only [impStep, hs, hst, hg, hgrp', Bool.not_true, Bool.false_eq_true, if_false, resolveCols, hv,
+    buildVariable_six, h62, hne, hidx, hne2, joinBlock, hdisj, varAt, hmap]
+
+/-- Remark to `joinVar_step_element_nodal*`: in a valid frame (distinct (element, node) pairs) the look-up finds the
+frame row with that key. -/
+theorem find_own_row {fr : Frame V} (hvalid : (fr.rows.map Row.key).Nodup) {r : Row V} (hr : r ∈ fr.rows)
+    {k : Int × Int} (hk : k = r.key) : (byElement fr.rows).find? (fun x => x.key == k) = some r := by
+  subst hk
+  exact find_key_of_nodup hvalid (fun x => mem_byElement) hr
+
+/-- What a successful `add_variable` leaves in the file for the step theorems. -/
+theorem addVariable_stored [Cell V] (f : File V) (state geom var : String) (fr : Frame V)
+    (cols : Option (List String)) (loc : Option Nat) (h : (addVariable f state geom var fr cols loc).2 = none) :
+    ∃ names l idx, resolveCols var cols = some names ∧ resolveLoc var loc = some l ∧ colIdx fr.cols names = some idx ∧
+      (addVariable f state geom var fr cols loc).1.geoms = f.geoms ∧
+      (state, geom) ∈ (addVariable f state geom var fr cols loc).1.groups ∧
+      (addVariable f state geom var fr cols loc).1.vars.lookup (state, geom, var) = some (buildVariable l fr idx) := by
+  obtain ⟨names, l, idx, h1, h2, _, h4, h5, h6, h7⟩ := addVariable_ok h
+  exact ⟨names, l, idx, h1, h2, h4, h5, by simpa using h6, h7⟩
+
+/-- join_variable of a NODE variable just exported from `fr`, on any session state of that geometry. -/
+theorem joinVar_step_node [Cell V] (f : File V) (state geom var : String) (fr : Frame V) (cols : Option (List String))
+    (loc : Option Nat)
+    (h : (addVariable f state geom var fr cols loc).2 = none) (hloc : resolveLoc var loc = some 2)
+    (s : Session V) (labels : List String) (rows : MeshRows V) (hs : s.mesh = some (labels, rows)) (hgeo : s.geometry = geom)
+    (st : Option String) (hst : pickState st s.state = some state) (newLabels : List String)
+    (hdisj : newLabels.any (fun l => labels.contains l) = false) :
+    ∃ names idx, resolveCols var cols = some names ∧ colIdx fr.cols names = some idx ∧
+      (newLabels.length = names.length →
+        impStep (addVariable f state geom var fr cols loc).1 s (.joinVar var st (some newLabels))
+          = ({ s with state := some state, mesh := some (labels ++ newLabels, rows.map (fun r => (r.1, r.2 ++
+              cellsOf idx.length (if r.1.2 ∈ nodeIds fr then some (nodeValue fr.rows idx r.1.2) else none)))) }, none)) := by
+  obtain ⟨names, l, idx, h1, h2, h4, h5, h6, h7⟩ := addVariable_stored f state geom var fr cols loc h
+  rw [hloc] at h2
+  obtain rfl : 2 = l := by simpa using h2
+  refine ⟨names, idx, h1, h4, fun hlen => ?_⟩
+  have hgs : (f.geoms.lookup geom).isSome = true := by
+    unfold addVariable at h
+    split at h
+    · simp at h
+    · rename_i hh; simpa using hh
+  obtain ⟨g, hg⟩ := Option.isSome_iff_exists.1 hgs
+  exact joinVar_step_node_stored _ state geom var fr idx g (by rw [h5]; exact hg) h7 h6 s labels rows hs hgeo st hst
+    newLabels hdisj (by rw [hlen, colIdx_length h4])
+
+theorem joinVar_step_element_nodal [Cell V] (f : File V) (state geom var : String) (fr : Frame V)
+    (cols : Option (List String)) (loc : Option Nat) (g : Geometry V) (cidx : List Nat)
+    (hg : f.geoms.lookup geom = some g) (hx : ExportedFrom g fr cidx)
+    (h : (addVariable f state geom var fr cols loc).2 = none) (hloc : resolveLoc var loc = some 6)
+    (s : Session V) (labels : List String) (rows : MeshRows V) (hs : s.mesh = some (labels, rows)) (hgeo : s.geometry = geom)
+    (st : Option String) (hst : pickState st s.state = some state) (newLabels : List String)
+    (hdisj : newLabels.any (fun l => labels.contains l) = false) :
+    ∃ names idx, resolveCols var cols = some names ∧ colIdx fr.cols names = some idx ∧
+      (newLabels.length = names.length →
+        impStep (addVariable f state geom var fr cols loc).1 s (.joinVar var st (some newLabels))
+          = ({ s with state := some state, mesh := some (labels ++ newLabels, rows.map (fun r => (r.1, r.2 ++
+              cellsOf idx.length (((byElement fr.rows).find? (fun x => x.key == r.1)).map (selRow idx))))) }, none)) := by
+  obtain ⟨names, l, idx, h1, h2, h4, h5, h6, h7⟩ := addVariable_stored f state geom var fr cols loc h
+  rw [hloc] at h2
+  obtain rfl : 6 = l := by simpa using h2
+  refine ⟨names, idx, h1, h4, fun hlen => ?_⟩
+  exact joinVar_step_element_nodal_stored _ state geom var fr idx g cidx (by rw [h5]; exact hg) hx h7 h6 s labels rows
+    hs hgeo st hst newLabels hdisj (by rw [hlen, colIdx_length h4])
+
+/-! ### Whole reads -/
 
 /-- **Round trip of a nodal variable.**  The geometry `geom` of the file was exported from `fr`
 (`ExportedFrom`, provided by `addGeometry_ok` and kept by every later call), `add_variable` with location
 NODE succeeds: reading the variable back under any column labels of the right length returns, per mesh
-row, the cells of the first frame row of its node. -/
-theorem roundtrip_node_variable (f : File V) (state geom var : String) (fr : Frame V)
+row, the value stored for its node (`groupby('node_id').first()`). -/
+theorem roundtrip_node_variable [Cell V] (f : File V) (state geom var : String) (fr : Frame V)
     (cols : Option (List String)) (loc : Option Nat) (g : Geometry V) (cidx : List Nat)
     (hg : f.geoms.lookup geom = some g) (hx : ExportedFrom g fr cidx)
     (h : (addVariable f state geom var fr cols loc).2 = none) (hloc : resolveLoc var loc = some 2)
@@ -89,23 +271,26 @@ theorem roundtrip_node_variable (f : File V) (state geom var : String) (fr : Fra
         (readFrame (addVariable f state geom var fr cols loc).1 s
             [.makeMesh geom (some state), .joinVar var none (some labels)]).2
           = .ok (labels, (byElement fr.rows).map (fun r => (r.key, (nodeValue fr.rows idx r.nid).map some)))) := by
-  obtain ⟨names, l, idx, h1, h2, _, h4, h5, h6, h7⟩ := addVariable_ok h
-  rw [hloc] at h2
-  obtain rfl : 2 = l := by simpa using h2
+  obtain ⟨names, idx, h1, h4, hstep⟩ := joinVar_step_node f state geom var fr cols loc h hloc
+    ⟨some ([], (meshIndex g).map (fun k => (k, []))), geom, some state⟩ [] _ rfl rfl none rfl labels (by simp)
   refine ⟨names, idx, h1, h4, fun hlen => ?_⟩
-  have hg' : (addVariable f state geom var fr cols loc).1.geoms.lookup geom = some g := by rw [h5]; exact hg
-  have hlen' : labels.length = idx.length := by rw [hlen, colIdx_length h4]
-  have h6' : (state, geom) ∈ (addVariable f state geom var fr cols loc).1.groups := by simpa using h6
-  simp [readFrame, runChain, impStep, hg', toFrame, joinBlock, hx.mesh, List.map_map, Function.comp_def,
-    h6', h7, resolveCols, buildVariable, hlen', varAt]
+  have hg' : (addVariable f state geom var fr cols loc).1.geoms.lookup geom = some g := by
+    rw [(addVariable_stored f state geom var fr cols loc h).choose_spec.choose_spec.choose_spec.2.2.2.1]; exact hg
+  simp only [readFrame, runChain]
+  rw [show impStep (addVariable f state geom var fr cols loc).1 s (.makeMesh geom (some state))
+      = (⟨some ([], (meshIndex g).map (fun k => (k, []))), geom, some state⟩, none) by simp only [impStep, hg']]
+  simp only [hstep hlen]
+  simp only [toFrame, hx.mesh, List.map_map, Function.comp_def, List.nil_append]
+  congr 2
+  apply List.map_congr_left
   intro a ha
-  rw [lookup_zip_map, if_pos]
-  · rfl
-  · exact mem_sortU.2 (List.mem_map_of_mem (mem_byElement.1 ha))
+  have hm : a.key.2 ∈ nodeIds fr := nid_mem_nodeIds (mem_byElement.1 ha)
+  rw [if_pos hm]
+  rfl
 
 /-- **Round trip of an element nodal variable** (valid frame: distinct (element, node) pairs).  Reading the
 variable back returns every exported row's own cells. -/
-theorem roundtrip_element_nodal_variable (f : File V) (state geom var : String) (fr : Frame V)
+theorem roundtrip_element_nodal_variable [Cell V] (f : File V) (state geom var : String) (fr : Frame V)
     (cols : Option (List String)) (loc : Option Nat) (g : Geometry V) (cidx : List Nat)
     (hvalid : (fr.rows.map Row.key).Nodup)
     (hg : f.geoms.lookup geom = some g) (hx : ExportedFrom g fr cidx)
@@ -116,34 +301,20 @@ theorem roundtrip_element_nodal_variable (f : File V) (state geom var : String) 
         (readFrame (addVariable f state geom var fr cols loc).1 s
             [.makeMesh geom (some state), .joinVar var none (some labels)]).2
           = .ok (labels, (byElement fr.rows).map (fun r => (r.key, (selRow idx r).map some)))) := by
-  obtain ⟨names, l, idx, h1, h2, _, h4, h5, h6, h7⟩ := addVariable_ok h
-  rw [hloc] at h2
-  obtain rfl : 6 = l := by simpa using h2
+  obtain ⟨names, idx, h1, h4, hstep⟩ := joinVar_step_element_nodal f state geom var fr cols loc g cidx hg hx h hloc
+    ⟨some ([], (meshIndex g).map (fun k => (k, []))), geom, some state⟩ [] _ rfl rfl none rfl labels (by simp)
   refine ⟨names, idx, h1, h4, fun hlen => ?_⟩
-  have hg' : (addVariable f state geom var fr cols loc).1.geoms.lookup geom = some g := by rw [h5]; exact hg
-  have hlen' : labels.length = idx.length := by rw [hlen, colIdx_length h4]
-  have h6' : (state, geom) ∈ (addVariable f state geom var fr cols loc).1.groups := by simpa using h6
-  -- the index the importer rebuilds is the exported frame grouped by element
-  have hidx : varIndex g (buildVariable 6 fr idx) = (byElement fr.rows).map Row.key := by
-    unfold varIndex
-    simp only [buildVariable, hx.mesh]
-    have : ∀ e, ((byElement fr.rows).map Row.key).filter (fun k => k.1 == e) = (elemRows fr.rows e).map Row.key := by
-      intro e
-      rw [← byElement_filter, List.filter_map]
-      rfl
-    simp only [this, if_neg (show ¬ (6 = 2) by decide)]
-    unfold byElement
-    rw [List.map_flatMap]
-  have hvals : (buildVariable 6 fr idx).values = (byElement fr.rows).map (selRow idx) := by
-    simp [buildVariable]
-  have hloc6 : (buildVariable 6 fr idx).loc = 6 := by simp [buildVariable]
-  have hnc : (buildVariable 6 fr idx).ncols = idx.length := by simp [buildVariable]
-  simp [readFrame, runChain, impStep, hg', toFrame, joinBlock, h6', h7, resolveCols, hlen', varAt, hidx, hvals,
-    hloc6, hnc, hx.mesh, List.map_map, Function.comp_def]
+  have hg' : (addVariable f state geom var fr cols loc).1.geoms.lookup geom = some g := by
+    rw [(addVariable_stored f state geom var fr cols loc h).choose_spec.choose_spec.choose_spec.2.2.2.1]; exact hg
+  simp only [readFrame, runChain]
+  rw [show impStep (addVariable f state geom var fr cols loc).1 s (.makeMesh geom (some state))
+      = (⟨some ([], (meshIndex g).map (fun k => (k, []))), geom, some state⟩, none) by simp only [impStep, hg']]
+  simp only [hstep hlen]
+  simp only [toFrame, hx.mesh, List.map_map, Function.comp_def, List.nil_append]
+  congr 2
+  apply List.map_congr_left
   intro a ha
-  have hfind := find_key_of_nodup (l := byElement fr.rows) hvalid (fun x => mem_byElement) (mem_byElement.1 ha)
-  have := lookup_zip_map_map (byElement fr.rows) Row.key (selRow idx) a.key
-  rw [this, hfind]
+  rw [find_own_row hvalid (mem_byElement.1 ha) rfl]
   rfl
 
 /-- **Reading is repeatable.**  A call chain that starts with `make_mesh` returns the same frame (or raises
@@ -164,7 +335,10 @@ theorem import_repeatable (f : File V) (s s' : Session V) (geom : String) (st : 
   exact ⟨key s s', key _ _⟩
 
 /-- **Filtering by a stored node set returns exactly its members**: after a successful `add_node_set`, the
-set is listed and `filter_node_set(name)` keeps exactly the mesh rows whose node is a member. -/
+set is listed and `filter_node_set(name)` keeps exactly the mesh rows whose node is a member - on any session
+state of that geometry.  (The importer looks sets up by name: a set of the same kind and name stored EARLIER
+in the same geometry is replaced by this one in look-ups; sets under other names, of the other kind or of other
+geometries keep answering as before - `sets_persist_addSet`.) -/
 theorem filter_returns_set (f : File V) (geom : String) (ids : List Int) (fr : Frame V) (name : String)
     (h : (addSet f 0 geom ids fr true name).2 = none)
     (s : Session V) (labels : List String) (rows : MeshRows V)
@@ -173,7 +347,7 @@ theorem filter_returns_set (f : File V) (geom : String) (ids : List Int) (fr : F
         = ({ s with mesh := some (labels, rows.filter (fun r => ids.contains r.1.2)) }, none) ∧
       (∀ r, r ∈ rows.filter (fun r => ids.contains r.1.2) ↔ r ∈ rows ∧ r.1.2 ∈ ids) ∧
       ∃ g', (addSet f 0 geom ids fr true name).1.geoms.lookup geom = some g' ∧ name ∈ setNames g' 0 := by
-  obtain ⟨g, hg, hg'⟩ := addSet_ok h
+  obtain ⟨g, hg, _, hg', _⟩ := addSet_ok h
   have hset : setIds { g with sets := g.sets ++ [⟨0, name, ids⟩] } 0 name = some ids := by
     simp [setIds]
   refine ⟨?_, ?_, _, hg', ?_⟩
@@ -190,7 +364,7 @@ theorem filter_returns_element_set (f : File V) (geom : String) (ids : List Int)
         = ({ s with mesh := some (labels, rows.filter (fun r => ids.contains r.1.1)) }, none) ∧
       (∀ r, r ∈ rows.filter (fun r => ids.contains r.1.1) ↔ r ∈ rows ∧ r.1.1 ∈ ids) ∧
       ∃ g', (addSet f 1 geom ids fr true name).1.geoms.lookup geom = some g' ∧ name ∈ setNames g' 1 := by
-  obtain ⟨g, hg, hg'⟩ := addSet_ok h
+  obtain ⟨g, hg, _, hg', _⟩ := addSet_ok h
   have hset : setIds { g with sets := g.sets ++ [⟨1, name, ids⟩] } 1 name = some ids := by
     simp [setIds]
   refine ⟨?_, ?_, _, hg', ?_⟩
@@ -200,14 +374,14 @@ theorem filter_returns_element_set (f : File V) (geom : String) (ids : List Int)
 
 /-- **A failed `add_geometry` leaves the file unchanged** (the group created before the failure is deleted
 again; the name check precedes the creation). -/
-theorem failed_addGeometry_leaves_file_unchanged [BEq V] (dim : Nat) (f : File V) (name : String) (fr : Frame V)
-    (e : Err) (h : (addGeometry dim f name fr).2.2 = some e) : (addGeometry dim f name fr).2.1 = f :=
+theorem failed_addGeometry_leaves_file_unchanged [Cell V] (f : File V) (name : String) (fr : Frame V)
+    (e : Err) (h : (addGeometry f name fr).2 = some e) : (addGeometry f name fr).1 = f :=
   addGeometry_err h
 
 /-- **A failed `add_variable` leaves no partial variable**: geometries and variable groups are exactly those
 of the input file.  (The empty state / geometry groups the call created before failing may remain; they hold
 no variable.) -/
-theorem failed_addVariable_leaves_no_partial_variable (f : File V) (state geom var : String) (fr : Frame V)
+theorem failed_addVariable_leaves_no_partial_variable [Cell V] (f : File V) (state geom var : String) (fr : Frame V)
     (cols : Option (List String)) (loc : Option Nat) (e : Err)
     (h : (addVariable f state geom var fr cols loc).2 = some e) :
     (addVariable f state geom var fr cols loc).1.geoms = f.geoms ∧
@@ -226,16 +400,16 @@ theorem failed_addSet_leaves_file_unchanged (f : File V) (kind : Nat) (geom : St
 `addGeometry_ok` establishes it; the three theorems below show that every later exporter call keeps it, so
 the variable theorems above apply after any history of calls that follows the export of the geometry. -/
 
-theorem exported_after_addGeometry [BEq V] (dim : Nat) (f : File V) (name : String) (fr : Frame V)
-    (h : (addGeometry dim f name fr).2.2 = none) :
-    ∃ g idx, (addGeometry dim f name fr).2.1.geoms.lookup name = some g ∧ ExportedFrom g fr idx := by
+theorem exported_after_addGeometry [Cell V] (f : File V) (name : String) (fr : Frame V)
+    (h : (addGeometry f name fr).2 = none) :
+    ∃ g idx, (addGeometry f name fr).1.geoms.lookup name = some g ∧ ExportedFrom g fr idx := by
   obtain ⟨_, g, idx, hg, hx, _⟩ := addGeometry_ok h
   exact ⟨g, idx, hg, hx⟩
 
-theorem exported_persists_addGeometry [BEq V] (dim : Nat) (f : File V) (name : String) (fr' : Frame V)
+theorem exported_persists_addGeometry [Cell V] (f : File V) (name : String) (fr' : Frame V)
     (geom : String) (g : Geometry V) (hg : f.geoms.lookup geom = some g) :
-    (addGeometry dim f name fr').2.1.geoms.lookup geom = some g := by
-  cases he : (addGeometry dim f name fr').2.2 with
+    (addGeometry f name fr').1.geoms.lookup geom = some g := by
+  cases he : (addGeometry f name fr').2 with
   | some e => rw [addGeometry_err he]; exact hg
   | none =>
     have hne : geom ≠ name := by
@@ -253,11 +427,11 @@ theorem exported_persists_addGeometry [BEq V] (dim : Nat) (f : File V) (name : S
         split at he
         · simp at he
         · rename_i hbe
-          simp only [hbp, hbe]
+          simp only [hbe]
           rw [lookup_setKey_ne _ hne]
           exact lookup_append_of_some hg
 
-theorem exported_persists_addVariable (f : File V) (state gname var : String) (fr' : Frame V)
+theorem exported_persists_addVariable [Cell V] (f : File V) (state gname var : String) (fr' : Frame V)
     (cols : Option (List String)) (loc : Option Nat) :
     (addVariable f state gname var fr' cols loc).1.geoms = f.geoms := by
   cases he : (addVariable f state gname var fr' cols loc).2 with
@@ -266,51 +440,337 @@ theorem exported_persists_addVariable (f : File V) (state gname var : String) (f
     obtain ⟨_, _, _, _, _, _, _, h5, _⟩ := addVariable_ok he
     exact h5
 
-theorem exported_persists_addSet (f : File V) (kind : Nat) (gname : String) (ids : List Int) (fr' : Frame V)
+theorem addSet_lookup_ne (f : File V) (kind : Nat) (gname : String) (ids : List Int) (fr' : Frame V)
+    (nameOk : Bool) (name : String) (geom : String) (hn : geom ≠ gname) :
+    (addSet f kind gname ids fr' nameOk name).1.geoms.lookup geom = f.geoms.lookup geom := by
+  cases he : (addSet f kind gname ids fr' nameOk name).2 with
+  | some e => rw [addSet_err he]
+  | none =>
+    obtain ⟨g0, _, hf, _⟩ := addSet_ok he
+    rw [hf]
+    exact lookup_setKey_ne _ hn
+
+theorem exported_persists_addSet [Cell V] (f : File V) (kind : Nat) (gname : String) (ids : List Int) (fr' : Frame V)
     (nameOk : Bool) (name : String) (geom : String) (g : Geometry V) (fr : Frame V) (idx : List Nat)
     (hg : f.geoms.lookup geom = some g) (hx : ExportedFrom g fr idx) :
     ∃ g', (addSet f kind gname ids fr' nameOk name).1.geoms.lookup geom = some g' ∧ ExportedFrom g' fr idx := by
   cases he : (addSet f kind gname ids fr' nameOk name).2 with
   | some e => rw [addSet_err he]; exact ⟨g, hg, hx⟩
   | none =>
-    obtain ⟨g0, hg0, hg1⟩ := addSet_ok he
+    obtain ⟨g0, hg0, _, hg1, _⟩ := addSet_ok he
     by_cases hn : geom = gname
     · subst hn
       rw [hg] at hg0
       cases hg0
-      exact ⟨_, hg1, ⟨hx.mesh, hx.ids, hx.coords, hx.ncoord, hx.cidx⟩⟩
+      exact ⟨_, hg1, ⟨hx.mesh, hx.ids, hx.coords, hx.ncoord, hx.ncoord_len, hx.cidx⟩⟩
     · refine ⟨g, ?_, hx⟩
-      unfold addSet at he ⊢
-      generalize idsOf kind fr' = m at he ⊢
-      split at he
-      · simp at he
-      · rename_i h1
-        split at he
-        · simp at he
-        · rename_i h2
-          rw [if_neg h1, if_neg h2]
-          simp only [hg0]
-          rw [lookup_setKey_ne _ hn]
-          exact hg
+      rw [addSet_lookup_ne _ _ _ _ _ _ _ _ hn]
+      exact hg
 
-/-! ### Non-vacuity: a mixed-type 2D mesh (a triangle and a quadrilateral) with element ids out of order,
-interleaved rows and id gaps; a nodal column `d` and a free column `p`. -/
+/-! ### A valid export succeeds -/
 
-def exFrame : Frame Nat :=
-  ⟨["x", "y", "z", "d", "p"],
-   [⟨7, 1, [0, 0, 0, 10, 100]⟩, ⟨2, 5, [1, 0, 0, 50, 101]⟩, ⟨7, 2, [1, 1, 0, 20, 102]⟩, ⟨2, 1, [0, 0, 0, 10, 103]⟩,
-    ⟨7, 3, [0, 1, 0, 30, 104]⟩, ⟨2, 3, [0, 1, 0, 30, 105]⟩, ⟨2, 4, [2, 2, 0, 40, 106]⟩]⟩
+/-- A frame is valid for the exporter. -/
+def ValidMesh [Cell V] (fr : Frame V) : Prop :=
+  (∀ r ∈ fr.rows, fits32 r.eid = true ∧ fits32 r.nid = true) ∧
+  (fr.cols.contains "z" = true → fr.rows ≠ []) ∧
+  (∀ c ∈ coordNames fr, c ∈ fr.cols ∧ c ∉ fr.objCols) ∧
+  (∀ c ∈ connectivity fr.rows, (elemType (ownDim fr) c.2.length).isSome = true)
 
-def exFile : File Nat := (addGeometry 2 File.empty "g" exFrame).2.1
+theorem addGeometry_succeeds [Cell V] (f : File V) (name : String) (fr : Frame V)
+    (hname : f.geoms.lookup name = none) (hv : ValidMesh fr) : (addGeometry f name fr).2 = none := by
+  obtain ⟨h1, h2, h3, h4⟩ := hv
+  obtain ⟨idx, hbp⟩ := buildPoints_succeeds (fun r hr => (h1 r hr).2) h2 h3
+  have hbe := buildElements_succeeds (dim := ownDim fr) (fun r hr => (h1 r hr).1) h4
+  unfold addGeometry
+  simp only [hname, hbp, hbe, Option.isSome_none, Bool.false_eq_true, if_false]
 
--- hypotheses of roundtrip_mesh / roundtrip_coordinates
-example : (addGeometry 2 (File.empty : File Nat) "g" exFrame).2.2 = none := by decide
+/-- The outcome of `add_geometry` does not depend on what was exported (or refused) before: same verdict and same stored
+geometry for any two files in which the name is free.  (No sticky dimension.) -/
+theorem addGeometry_history_independent [Cell V] (f f' : File V) (name : String) (fr : Frame V)
+    (h : f.geoms.lookup name = none) (h' : f'.geoms.lookup name = none) :
+    (addGeometry f name fr).2 = (addGeometry f' name fr).2 ∧
+      (addGeometry f name fr).1.geoms.lookup name = (addGeometry f' name fr).1.geoms.lookup name := by
+  unfold addGeometry
+  simp only [h, h', Option.isSome_none, Bool.false_eq_true, if_false]
+  cases hbp : buildPoints fr with
+  | error e => simp only [eraseKey_append_self h, eraseKey_append_self h', h, h', and_self]
+  | ok p =>
+    obtain ⟨ids, nc, coords⟩ := p
+    cases hbe : buildElements (ownDim fr) fr with
+    | error e => simp only [eraseKey_append_self h, eraseKey_append_self h', h, h', and_self]
+    | ok els => simp only [lookup_setKey_append, and_self]
+
+theorem addVariable_succeeds [Cell V] (f : File V) (state geom var : String) (fr : Frame V)
+    (cols : Option (List String)) (loc : Option Nat) (names : List String) (l : Nat)
+    (hg : (f.geoms.lookup geom).isSome = true) (hfree : f.vars.lookup (state, geom, var) = none)
+    (hc : resolveCols var cols = some names) (hl : resolveLoc var loc = some l) (hl26 : l = 2 ∨ l = 6)
+    (hids : varIdsFit l fr = true) (hcols : ∀ c ∈ names, c ∈ fr.cols ∧ c ∉ fr.objCols) :
+    (addVariable f state geom var fr cols loc).2 = none := by
+  obtain ⟨_, e2, _⟩ := ensureGroup_facts f state geom
+  have hidx := colIdx_of_mem (fun c hc => (hcols c hc).1)
+  have hobj := any_objCols_false (fun c hc => (hcols c hc).2)
+  have hgn : (f.geoms.lookup geom).isNone = false := by
+    cases hh : f.geoms.lookup geom with
+    | none => rw [hh] at hg; cases hg
+    | some x => rfl
+  have hl' : ¬ (l ≠ 2 ∧ l ≠ 6) := by omega
+  unfold addVariable addVariableCore
+  simp only [hgn, e2, hfree, hc, hl, hl', hids, hidx, hobj, Option.isSome_none, Bool.not_true, Bool.false_eq_true,
+    if_false]
+
+theorem addSet_succeeds (f : File V) (kind : Nat) (geom : String) (ids : List Int) (fr : Frame V) (name : String)
+    (hg : (f.geoms.lookup geom).isSome = true) (hsub : ∀ i ∈ ids, i ∈ idsOf kind fr) (hfit : ∀ i ∈ ids, fits32 i = true) :
+    (addSet f kind geom ids fr true name).2 = none := by
+  have h1 : ids.all (fun i => (idsOf kind fr).contains i) = true := by
+    rw [List.all_eq_true]
+    intro i hi
+    simpa using hsub i hi
+  have h2 : ids.all fits32 = true := by rw [List.all_eq_true]; exact hfit
+  obtain ⟨g, hg⟩ := Option.isSome_iff_exists.1 hg
+  unfold addSet
+  simp only [h1, h2, hg, Bool.not_true, Bool.false_eq_true, if_false]
+
+/-! ### Identifiers are the 32 bit integers of the format -/
+
+theorem addGeometry_ok_ids_fit [Cell V] (f : File V) (name : String) (fr : Frame V) (h : (addGeometry f name fr).2 = none) :
+    ∀ r ∈ fr.rows, fits32 r.eid = true ∧ fits32 r.nid = true := by
+  obtain ⟨_, g, idx, _, _, _, _, _, _, hn, he, _⟩ := addGeometry_ok h
+  intro r hr
+  exact ⟨elemIds_all_fits.1 he r hr, nodeIds_all_fits.1 hn r hr⟩
+
+theorem addGeometry_refuses_overflow [Cell V] (f : File V) (name : String) (fr : Frame V) (r : Row V) (hr : r ∈ fr.rows)
+    (h : fits32 r.eid = false ∨ fits32 r.nid = false) :
+    (addGeometry f name fr).2 ≠ none ∧ (addGeometry f name fr).1 = f := by
+  have hne : (addGeometry f name fr).2 ≠ none := by
+    intro hok
+    have := addGeometry_ok_ids_fit f name fr hok r hr
+    rcases h with h | h
+    · rw [this.1] at h; cases h
+    · rw [this.2] at h; cases h
+  refine ⟨hne, ?_⟩
+  cases he : (addGeometry f name fr).2 with
+  | none => exact absurd he hne
+  | some e => exact addGeometry_err he
+
+theorem addSet_refuses_overflow (f : File V) (kind : Nat) (geom : String) (ids : List Int) (fr : Frame V)
+    (nameOk : Bool) (name : String) (i : Int) (hi : i ∈ ids) (h : fits32 i = false) :
+    (addSet f kind geom ids fr nameOk name).2 ≠ none ∧ (addSet f kind geom ids fr nameOk name).1 = f := by
+  have hne : (addSet f kind geom ids fr nameOk name).2 ≠ none := by
+    intro hok
+    obtain ⟨_, _, _, _, hfit⟩ := addSet_ok hok
+    rw [List.all_eq_true] at hfit
+    rw [hfit i hi] at h
+    cases h
+  refine ⟨hne, ?_⟩
+  cases he : (addSet f kind geom ids fr nameOk name).2 with
+  | none => exact absurd he hne
+  | some e => exact addSet_err he
+
+/-- `add_variable` refuses identifiers outside int32 as well (nodes for NODE, elements for ELEMENT_NODAL). -/
+theorem addVariable_ok_ids_fit [Cell V] (f : File V) (state geom var : String) (fr : Frame V)
+    (cols : Option (List String)) (loc : Option Nat) (h : (addVariable f state geom var fr cols loc).2 = none) :
+    ∃ l, resolveLoc var loc = some l ∧ varIdsFit l fr = true := by
+  unfold addVariable at h
+  split at h
+  · simp at h
+  · obtain ⟨_, l, _, _, h2, _, _, _, _, _, _, _, hfit⟩ := addVariableCore_ok h
+    exact ⟨l, h2, hfit⟩
+
+/-! ### Element types -/
+
+theorem elemType_injective {d d' n n' t : Nat} (h : elemType d n = some t) (h' : elemType d' n' = some t) :
+    d = d' ∧ n = n' := by
+  unfold elemType at h h'
+  split at h <;> simp only [Option.some.injEq, reduceCtorEq] at h <;> subst h <;>
+    split at h' <;> simp at h' <;> exact ⟨rfl, rfl⟩
+
+/-- After a successful add_geometry every stored element has the type the table gives for the frame's OWN dimension and its
+node count. -/
+theorem stored_element_types [Cell V] (f : File V) (name : String) (fr : Frame V) (h : (addGeometry f name fr).2 = none) :
+    ∃ g, (addGeometry f name fr).1.geoms.lookup name = some g ∧
+      g.elements = (connectivity fr.rows).map (fun c => (c.1, (elemType (ownDim fr) c.2.length).getD 0, c.2)) ∧
+      ∀ el ∈ g.elements, elemType (ownDim fr) el.2.2.length = some el.2.1 := by
+  obtain ⟨_, g, idx, hg, _, _, _, _, hels, _, _, hall⟩ := addGeometry_ok h
+  refine ⟨g, hg, hels, ?_⟩
+  intro el hel
+  rw [hels, List.mem_map] at hel
+  obtain ⟨c, hc, rfl⟩ := hel
+  rw [List.all_eq_true] at hall
+  have := hall c hc
+  obtain ⟨t, ht⟩ := Option.isSome_iff_exists.1 this
+  simp only [ht, Option.getD_some]
+
+/-! ### Persistence of variables, groups and sets -/
+
+/-- `add_geometry` touches neither variables nor groups (in both outcomes). -/
+theorem addGeometry_keeps_vars_groups [Cell V] (f : File V) (name : String) (fr : Frame V) :
+    (addGeometry f name fr).1.vars = f.vars ∧ (addGeometry f name fr).1.groups = f.groups := by
+  cases he : (addGeometry f name fr).2 with
+  | some e => rw [addGeometry_err he]; exact ⟨rfl, rfl⟩
+  | none =>
+    obtain ⟨_, _, _, _, _, _, hgr, hv, _⟩ := addGeometry_ok he
+    exact ⟨hv, hgr⟩
+
+theorem vars_persist_addGeometry [Cell V] (f : File V) (name : String) (fr : Frame V) (k : String × String × String)
+    (v : Variable V) (h : f.vars.lookup k = some v) : (addGeometry f name fr).1.vars.lookup k = some v := by
+  rw [(addGeometry_keeps_vars_groups f name fr).1]; exact h
+
+theorem groups_persist_addGeometry [Cell V] (f : File V) (name : String) (fr : Frame V) :
+    ∀ p ∈ f.groups, p ∈ (addGeometry f name fr).1.groups := by
+  rw [(addGeometry_keeps_vars_groups f name fr).2]; exact fun _ hp => hp
+
+/-- A successful `add_variable` appends a NEW key; a failed one leaves the variables as they were. -/
+theorem vars_persist_addVariable [Cell V] (f : File V) (state geom var : String) (fr : Frame V)
+    (cols : Option (List String)) (loc : Option Nat) (k : String × String × String) (v : Variable V)
+    (h : f.vars.lookup k = some v) : (addVariable f state geom var fr cols loc).1.vars.lookup k = some v := by
+  cases he : (addVariable f state geom var fr cols loc).2 with
+  | some e => rw [(addVariable_err he).2.1]; exact h
+  | none =>
+    unfold addVariable at he ⊢
+    split at he
+    · simp at he
+    · rename_i hgeo
+      simp only [hgeo, if_false, Bool.false_eq_true]
+      obtain ⟨names, l, idx, _, _, _, _, _, _, _, hfree, hvars, _⟩ := addVariableCore_ok he
+      obtain ⟨_, e2, _⟩ := ensureGroup_facts f state geom
+      rw [hvars, e2]
+      rw [e2] at hfree
+      have hne : k ≠ (state, geom, var) := by
+        rintro rfl
+        rw [hfree] at h
+        cases h
+      rw [lookup_setKey_ne _ hne]
+      exact lookup_append_of_some h
+
+theorem groups_persist_addVariable [Cell V] (f : File V) (state geom var : String) (fr : Frame V)
+    (cols : Option (List String)) (loc : Option Nat) :
+    ∀ p ∈ f.groups, p ∈ (addVariable f state geom var fr cols loc).1.groups := by
+  intro p hp
+  unfold addVariable
+  split
+  · exact hp
+  · rw [(addVariableCore_groups _ state geom var fr cols loc).1]
+    exact (ensureGroup_facts f state geom).2.2.2.2 p hp
+
+theorem vars_persist_addSet (f : File V) (kind : Nat) (geom : String) (ids : List Int) (fr : Frame V)
+    (nameOk : Bool) (name : String) :
+    (addSet f kind geom ids fr nameOk name).1.vars = f.vars ∧ (addSet f kind geom ids fr nameOk name).1.groups = f.groups := by
+  cases he : (addSet f kind geom ids fr nameOk name).2 with
+  | some e => rw [addSet_err he]; exact ⟨rfl, rfl⟩
+  | none =>
+    obtain ⟨_, _, hf, _⟩ := addSet_ok he
+    rw [hf]; exact ⟨rfl, rfl⟩
+
+theorem setIds_append_ne (g : Geometry V) (kind kind' : Nat) (name name' : String) (ids : List Int)
+    (hne : (kind', name') ≠ (kind, name)) :
+    setIds { g with sets := g.sets ++ [⟨kind, name, ids⟩] } kind' name' = setIds g kind' name' := by
+  unfold setIds
+  have : (kind == kind' && name == name') = false := by
+    rw [Bool.and_eq_false_iff]
+    by_cases hk : kind = kind'
+    · right
+      subst hk
+      have : name ≠ name' := by rintro rfl; exact hne rfl
+      simpa using this
+    · left; simpa using hk
+  simp only [List.reverse_append, List.reverse_cons, List.reverse_nil, List.nil_append, List.cons_append,
+    List.find?_cons, this]
+
+/-- Sets are only appended: every geometry keeps its sets as a prefix, and a look-up by (kind', name') other than the one just
+stored gives what it gave before. -/
+theorem sets_persist_addSet (f : File V) (kind : Nat) (gname : String) (ids : List Int) (fr' : Frame V)
+    (nameOk : Bool) (name : String) (geom : String) (g : Geometry V) (hg : f.geoms.lookup geom = some g) :
+    ∃ g', (addSet f kind gname ids fr' nameOk name).1.geoms.lookup geom = some g' ∧ (∃ extra, g'.sets = g.sets ++ extra) ∧
+      ∀ kind' name', (geom, kind', name') ≠ (gname, kind, name) → setIds g' kind' name' = setIds g kind' name' := by
+  by_cases hn : geom = gname
+  · cases he : (addSet f kind gname ids fr' nameOk name).2 with
+    | some e => rw [addSet_err he]; exact ⟨g, hg, ⟨[], by simp⟩, fun _ _ _ => rfl⟩
+    | none =>
+      obtain ⟨g0, hg0, _, hg1, _⟩ := addSet_ok he
+      subst hn
+      rw [hg] at hg0
+      cases hg0
+      refine ⟨_, hg1, ⟨_, rfl⟩, ?_⟩
+      intro kind' name' hne
+      apply setIds_append_ne
+      intro heq
+      apply hne
+      rw [Prod.mk.injEq] at heq
+      rw [heq.1, heq.2]
+  · refine ⟨g, ?_, ⟨[], by simp⟩, fun _ _ _ => rfl⟩
+    rw [addSet_lookup_ne _ _ _ _ _ _ _ _ hn]
+    exact hg
+
+/-- Sets survive `add_geometry` and `add_variable` (the stored geometry is the same object). -/
+theorem sets_persist_addVariable [Cell V] (f : File V) (state gname var : String) (fr' : Frame V)
+    (cols : Option (List String)) (loc : Option Nat) (geom : String) :
+    (addVariable f state gname var fr' cols loc).1.geoms.lookup geom = f.geoms.lookup geom := by
+  rw [exported_persists_addVariable]
+
+/-! ### Non-vacuity
+
+A mixed-type 2D mesh (a triangle and a quadrilateral) with element ids out of order, interleaved rows and id gaps.
+Cells are `ExV` (a NaN and numbers, IEEE comparison).  Column `d`: node 1 has NaN in its FIRST row and 10 in its second;
+column `p` is a free (element nodal) column; column `q` is a nodal field that is NaN at node 3. -/
+
+inductive ExV | nan | v (n : Nat) deriving DecidableEq
+
+instance : Cell ExV where
+  beq a b := match a, b with | .v m, .v n => m == n | _, _ => false     -- IEEE: NaN ≠ NaN
+  isNull a := match a with | .nan => true | _ => false
+
+open ExV in
+def exFrame : Frame ExV :=
+  ⟨["x", "y", "z", "d", "p", "q"], [],
+   [⟨7, 1, [v 0, v 0, v 0, nan, v 100, v 1]⟩, ⟨2, 5, [v 1, v 0, v 0, v 50, v 101, v 5]⟩,
+    ⟨7, 2, [v 1, v 1, v 0, v 20, v 102, v 2]⟩, ⟨2, 1, [v 0, v 0, v 0, v 10, v 103, v 1]⟩,
+    ⟨7, 3, [v 0, v 1, v 0, v 30, v 104, nan]⟩, ⟨2, 3, [v 0, v 1, v 0, v 30, v 105, nan]⟩,
+    ⟨2, 4, [v 2, v 2, v 0, v 40, v 106, v 4]⟩]⟩
+
+/-- a tetrahedron (3D: the z values differ) -/
+def exTet : Frame ExV :=
+  ⟨["x", "y", "z"], [],
+   [⟨1, 1, [.v 0, .v 0, .v 0]⟩, ⟨1, 2, [.v 1, .v 0, .v 0]⟩, ⟨1, 3, [.v 0, .v 1, .v 0]⟩, ⟨1, 4, [.v 0, .v 0, .v 1]⟩]⟩
+
+/-- a frame with a node id one above int32 -/
+def exBig : Frame ExV :=
+  ⟨["x", "y"], [], [⟨1, 1, [.v 0, .v 0]⟩, ⟨1, 2147483648, [.v 1, .v 0]⟩, ⟨1, 3, [.v 0, .v 1]⟩]⟩
+
+/-- a frame with an element of two nodes (not in the table) and one with an object column -/
+def exLine : Frame ExV := ⟨["x", "y"], [], [⟨1, 1, [.v 0, .v 0]⟩, ⟨1, 2, [.v 1, .v 0]⟩]⟩
+def exObj : Frame ExV := { exFrame with objCols := ["y", "d"] }
+
+def exFile : File ExV := (addGeometry File.empty "g" exFrame).1
+
+-- hypotheses of roundtrip_mesh / roundtrip_coordinates / exported_after_addGeometry / stored_element_types /
+-- addGeometry_ok_ids_fit
+example : (addGeometry (File.empty : File ExV) "g" exFrame).2 = none := by decide
+example : ownDim exFrame = 2 ∧ ownDim exTet = 3 := by decide
 -- … and what is read back: element 2 (a quadrilateral) first, node order 5 1 3 4 kept
 example : (readFrame exFile Session.init [.makeMesh "g" none, .joinCoords]).2
     = .ok (["x", "y", "z"],
-        [((2, 5), [some 1, some 0, some 0]), ((2, 1), [some 0, some 0, some 0]), ((2, 3), [some 0, some 1, some 0]),
-         ((2, 4), [some 2, some 2, some 0]), ((7, 1), [some 0, some 0, some 0]), ((7, 2), [some 1, some 1, some 0]),
-         ((7, 3), [some 0, some 1, some 0])]) := by decide
+        [((2, 5), [some (.v 1), some (.v 0), some (.v 0)]), ((2, 1), [some (.v 0), some (.v 0), some (.v 0)]),
+         ((2, 3), [some (.v 0), some (.v 1), some (.v 0)]), ((2, 4), [some (.v 2), some (.v 2), some (.v 0)]),
+         ((7, 1), [some (.v 0), some (.v 0), some (.v 0)]), ((7, 2), [some (.v 1), some (.v 1), some (.v 0)]),
+         ((7, 3), [some (.v 0), some (.v 1), some (.v 0)])]) := by decide
+-- the stored element types: quadrilateral (2) and triangle (0) in one geometry
+example : (exFile.geoms.lookup "g").map (·.elements) = some [(2, 2, [5, 1, 3, 4]), (7, 0, [1, 2, 3])] := by decide
+example : elemType 2 4 = some 2 ∧ elemType 3 4 = some 4 := by decide
+-- `groupby('node_id').first()` skips the NaN of node 1's first row in column d …
+example : nodeValue exFrame.rows [3] 1 = [.v 10] := by decide
+-- … and the nodal fields x, y, z, q satisfy the hypothesis of node_value_is_own_cells (q is NaN in all rows of node 3)
+example : ∀ r ∈ exFrame.rows, ∀ r' ∈ exFrame.rows, r.nid = r'.nid → ∀ i ∈ [0, 1, 2, 5], r.vals[i]? = r'.vals[i]? := by
+  decide
+example : nodeValue exFrame.rows [5] 3 = [.nan] := by decide
+-- hypotheses of addGeometry_succeeds (and of addGeometry_history_independent: the name is free in two different files;
+-- a 2D mesh after a 3D one and the other way round: no sticky dimension)
+example : ValidMesh exFrame :=
+  ⟨by decide, fun _ h => by simp [exFrame] at h, by decide, by decide⟩
+example : ValidMesh exTet :=
+  ⟨by decide, fun _ h => by simp [exTet] at h, by decide, by decide⟩
+example : exFile.geoms.lookup "h" = none ∧ (File.empty : File ExV).geoms.lookup "h" = none := by decide
+example : (addGeometry (addGeometry File.empty "t" exTet).1 "g" exFrame).2 = none
+    ∧ (addGeometry exFile "t" exTet).2 = none := by decide
 -- hypotheses of the variable theorems
 example : (exFrame.rows.map Row.key).Nodup := by decide
 example : (addVariable exFile "s" "g" "N" exFrame (some ["d"]) (some 2)).2 = none := by decide
@@ -318,22 +778,151 @@ example : (addVariable exFile "s" "g" "STRESS_CAUCHY" exFrame (some ["p", "d"]) 
     ∧ resolveLoc "STRESS_CAUCHY" none = some 6 := by decide
 example : (readFrame (addVariable exFile "s" "g" "EN" exFrame (some ["p"]) (some 6)).1 Session.init
     [.makeMesh "g" (some "s"), .joinVar "EN" none (some ["q"])]).2
-    = .ok (["q"], [((2, 5), [some 101]), ((2, 1), [some 103]), ((2, 3), [some 105]), ((2, 4), [some 106]),
-        ((7, 1), [some 100]), ((7, 2), [some 102]), ((7, 3), [some 104])]) := by decide
--- the nodal column is a nodal field (hypothesis of first_row_is_own_row)
-example : ∀ r ∈ exFrame.rows, ∀ r' ∈ exFrame.rows, r.nid = r'.nid → selRow [3] r = selRow [3] r' := by decide
--- hypotheses of the filter theorems
+    = .ok (["q"], [((2, 5), [some (.v 101)]), ((2, 1), [some (.v 103)]), ((2, 3), [some (.v 105)]),
+        ((2, 4), [some (.v 106)]), ((7, 1), [some (.v 100)]), ((7, 2), [some (.v 102)]), ((7, 3), [some (.v 104)])]) := by
+  decide
+-- hypotheses of addVariable_succeeds
+example : (exFile.geoms.lookup "g").isSome = true ∧ exFile.vars.lookup ("s", "g", "N") = none
+    ∧ resolveCols "N" (some ["d", "q"]) = some ["d", "q"] ∧ resolveLoc "N" (some 2) = some 2
+    ∧ varIdsFit 2 exFrame = true ∧ ∀ c ∈ ["d", "q"], c ∈ exFrame.cols ∧ c ∉ exFrame.objCols := by decide
+-- hypotheses of the filter theorems and of addSet_succeeds
 example : (addSet exFile 0 "g" [3, 1] exFrame true "FIX").2 = none := by decide
 example : (addSet exFile 1 "g" [7] exFrame true "").2 = none := by decide
+example : (∀ i ∈ [3, 1], i ∈ idsOf 0 exFrame) ∧ ∀ i ∈ [3, 1], fits32 i = true := by decide
 -- failing calls exist for each failed_* theorem: duplicate name, unsupported node count (roll-back branch),
--- missing column (roll-back branch), unknown geometry, members outside the mesh, non-string name
-example : (addGeometry 2 exFile "g" exFrame).2.2 = some .key := by decide
-example : (addGeometry 3 exFile "h" exFrame).2.2 = some .exportErr := by decide
+-- object coordinate column, missing column (roll-back branch), object data column, unknown geometry, members
+-- outside the mesh, non-string name
+example : (addGeometry exFile "g" exFrame).2 = some .key := by decide
+example : (addGeometry exFile "h" exLine).2 = some .exportErr := by decide
+example : (addGeometry exFile "h" exObj).2 = some .exportErr := by decide
 example : (addVariable exFile "s" "g" "V" exFrame (some ["nope"]) (some 6)).2 = some .exportErr := by decide
+example : (addVariable exFile "s" "g" "V" exObj (some ["d"]) (some 6)).2 = some .exportErr := by decide
 example : (addVariable exFile "s" "nogeo" "V" exFrame (some ["d"]) (some 2)).2 = some .key := by decide
 example : (addSet exFile 0 "g" [99] exFrame true "A").2 = some .key := by decide
 example : (addSet exFile 0 "g" [1] exFrame false "A").2 = some .typeErr := by decide
 -- a failed add_variable can leave the empty group it created (observation, outside the statement)
 example : (addVariable exFile "s" "g" "V" exFrame (some ["nope"]) (some 6)).1.groups = [("s", "g")] := by decide
+-- hypotheses of the *_refuses_overflow theorems: an id one above int32, in a geometry, a variable and a set
+example : fits32 2147483648 = false ∧ fits32 2147483647 = true ∧ fits32 (-2147483648) = true
+    ∧ fits32 (-2147483649) = false := by decide
+example : (⟨1, 2147483648, [.v 1, .v 0]⟩ : Row ExV) ∈ exBig.rows := by simp [exBig]
+example : (addGeometry exFile "h" exBig).2 = some .exportErr := by decide
+example : (addVariable exFile "s" "g" "V" exBig (some ["x"]) (some 2)).2 = some .exportErr := by decide
+example : (addSet exFile 0 "g" [2147483648] exBig true "A").2 = some .overflow := by decide
+
+/-! A later history: variables `N` (node) and `EN` (element nodal), then another geometry, a refused geometry, a set, a
+refused variable.  The hypotheses of the `*_stored` step theorems hold in the final file, and a chain of a shape other
+than `[makeMesh, joinVar]` (filter, coordinates, two variables) reads what the step theorems say. -/
+
+deriving instance DecidableEq for Variable
+
+def exF1 : File ExV := (addVariable exFile "s" "g" "N" exFrame (some ["d", "q"]) (some 2)).1
+def exF2 : File ExV := (addVariable exF1 "s" "g" "EN" exFrame (some ["p"]) (some 6)).1
+def exF3 : File ExV := (addGeometry exF2 "t" exTet).1
+def exF4 : File ExV := (addGeometry exF3 "bad" exLine).1
+def exF5 : File ExV := (addSet exF4 0 "g" [3, 1] exFrame true "FIX").1
+def exFile2 : File ExV := (addVariable exF5 "s" "g" "V" exFrame (some ["nope"]) (some 6)).1
+
+-- the verdicts of the six calls
+example : (addVariable exFile "s" "g" "N" exFrame (some ["d", "q"]) (some 2)).2 = none
+    ∧ (addVariable exF1 "s" "g" "EN" exFrame (some ["p"]) (some 6)).2 = none
+    ∧ (addGeometry exF2 "t" exTet).2 = none ∧ (addGeometry exF3 "bad" exLine).2 = some .exportErr
+    ∧ (addSet exF4 0 "g" [3, 1] exFrame true "FIX").2 = none
+    ∧ (addVariable exF5 "s" "g" "V" exFrame (some ["nope"]) (some 6)).2 = some .exportErr := by decide
+
+/-- The persistence theorems compose: the geometry `g` of the final file is still linked to `exFrame`. -/
+theorem exFile2_exported : ∃ g idx, exFile2.geoms.lookup "g" = some g ∧ ExportedFrom g exFrame idx := by
+  obtain ⟨g, idx, hg, hx⟩ := exported_after_addGeometry (File.empty : File ExV) "g" exFrame (by decide)
+  have h1 : exF1.geoms.lookup "g" = some g := by unfold exF1; rw [exported_persists_addVariable]; exact hg
+  have h2 : exF2.geoms.lookup "g" = some g := by unfold exF2; rw [exported_persists_addVariable]; exact h1
+  have h3 : exF3.geoms.lookup "g" = some g := exported_persists_addGeometry exF2 "t" exTet "g" g h2
+  have h4 : exF4.geoms.lookup "g" = some g := exported_persists_addGeometry exF3 "bad" exLine "g" g h3
+  obtain ⟨g', h5, hx'⟩ := exported_persists_addSet exF4 0 "g" [3, 1] exFrame true "FIX" "g" g exFrame idx h4 hx
+  refine ⟨g', idx, ?_, hx'⟩
+  unfold exFile2
+  rw [exported_persists_addVariable]
+  exact h5
+
+/-- … and the variables written at the beginning are still there (persistence theorems, not evaluation). -/
+theorem exFile2_vars : exFile2.vars.lookup ("s", "g", "N") = some (buildVariable 2 exFrame [3, 5])
+    ∧ exFile2.vars.lookup ("s", "g", "EN") = some (buildVariable 6 exFrame [4]) ∧ ("s", "g") ∈ exFile2.groups := by
+  have a1 : exF1.vars.lookup ("s", "g", "N") = some (buildVariable 2 exFrame [3, 5]) := by decide
+  have b2 : exF2.vars.lookup ("s", "g", "EN") = some (buildVariable 6 exFrame [4]) := by decide
+  have c2 : ("s", "g") ∈ exF2.groups := by decide
+  have a2 := vars_persist_addVariable exF1 "s" "g" "EN" exFrame (some ["p"]) (some 6) _ _ a1
+  have e5 : exF5.vars = exF4.vars := (vars_persist_addSet exF4 0 "g" [3, 1] exFrame true "FIX").1
+  have g5 : exF5.groups = exF4.groups := (vars_persist_addSet exF4 0 "g" [3, 1] exFrame true "FIX").2
+  refine ⟨?_, ?_, ?_⟩
+  · apply vars_persist_addVariable
+    rw [e5]
+    exact vars_persist_addGeometry exF3 "bad" exLine _ _ (vars_persist_addGeometry exF2 "t" exTet _ _ a2)
+  · apply vars_persist_addVariable
+    rw [e5]
+    exact vars_persist_addGeometry exF3 "bad" exLine _ _ (vars_persist_addGeometry exF2 "t" exTet _ _ b2)
+  · apply groups_persist_addVariable
+    rw [g5]
+    exact groups_persist_addGeometry exF3 "bad" exLine _ (groups_persist_addGeometry exF2 "t" exTet _ c2)
+
+/-- The step theorems apply in the final file to ANY session state of geometry `g`. -/
+example (s : Session ExV) (labels : List String) (rows : MeshRows ExV) (hs : s.mesh = some (labels, rows))
+    (hgeo : s.geometry = "g") (hst : pickState none s.state = some "s")
+    (hd : ["dd", "qq"].any (fun l => labels.contains l) = false) :
+    impStep exFile2 s (.joinVar "N" none (some ["dd", "qq"]))
+      = ({ s with state := some "s", mesh := some (labels ++ ["dd", "qq"], rows.map (fun r => (r.1, r.2 ++
+          cellsOf 2 (if r.1.2 ∈ nodeIds exFrame then some (nodeValue exFrame.rows [3, 5] r.1.2) else none)))) }, none) := by
+  obtain ⟨g, _, hg, _⟩ := exFile2_exported
+  exact joinVar_step_node_stored exFile2 "s" "g" "N" exFrame [3, 5] g hg exFile2_vars.1 exFile2_vars.2.2 s labels rows
+    hs hgeo none hst _ hd rfl
+
+example (s : Session ExV) (labels : List String) (rows : MeshRows ExV) (hs : s.mesh = some (labels, rows))
+    (hgeo : s.geometry = "g") (hd : ["pp"].any (fun l => labels.contains l) = false) :
+    impStep exFile2 s (.joinVar "EN" (some "s") (some ["pp"]))
+      = ({ s with state := some "s", mesh := some (labels ++ ["pp"], rows.map (fun r => (r.1, r.2 ++
+          cellsOf 1 (((byElement exFrame.rows).find? (fun x => x.key == r.1)).map (selRow [4]))))) }, none) := by
+  obtain ⟨g, cidx, hg, hx⟩ := exFile2_exported
+  exact joinVar_step_element_nodal_stored exFile2 "s" "g" "EN" exFrame [4] g cidx hg hx exFile2_vars.2.1
+    exFile2_vars.2.2 s labels rows hs hgeo (some "s") rfl _ hd rfl
+
+example (s : Session ExV) (labels : List String) (rows : MeshRows ExV) (hs : s.mesh = some (labels, rows))
+    (hgeo : s.geometry = "g") (hd : (coordNames exFrame).any (fun l => labels.contains l) = false)
+    (hrows : ∀ r ∈ rows, r.1.2 ∈ nodeIds exFrame) :
+    ∃ cidx, colIdx exFrame.cols (coordNames exFrame) = some cidx ∧
+      impStep exFile2 s .joinCoords = ({ s with mesh := some (labels ++ coordNames exFrame,
+        rows.map (fun r => (r.1, r.2 ++ (nodeValue exFrame.rows cidx r.1.2).map some))) }, none) := by
+  obtain ⟨g, cidx, hg, hx⟩ := exFile2_exported
+  exact ⟨cidx, hx.cidx, joinCoords_step exFile2 "g" g exFrame cidx hg hx s labels rows hs hgeo hd hrows⟩
+
+-- the new success / refusal theorems applied
+example : (addGeometry exFile "t" exTet).2 = none :=
+  addGeometry_succeeds exFile "t" exTet (by decide) ⟨by decide, fun _ h => by simp [exTet] at h, by decide, by decide⟩
+example : (addVariable exFile "s" "g" "N" exFrame (some ["d", "q"]) (some 2)).2 = none :=
+  addVariable_succeeds exFile "s" "g" "N" exFrame _ _ ["d", "q"] 2 (by decide) (by decide) rfl rfl (Or.inl rfl)
+    (by decide) (by decide)
+example : (addSet exFile 0 "g" [3, 1] exFrame true "FIX").2 = none :=
+  addSet_succeeds exFile 0 "g" [3, 1] exFrame "FIX" (by decide) (by decide) (by decide)
+example (f : File ExV) (name : String) : (addGeometry f name exBig).2 ≠ none ∧ (addGeometry f name exBig).1 = f :=
+  addGeometry_refuses_overflow f name exBig ⟨1, 2147483648, [.v 1, .v 0]⟩ (by simp [exBig]) (Or.inr (by decide))
+example (f : File ExV) (fr : Frame ExV) :
+    (addSet f 0 "g" [1, 2147483648] fr true "A").2 ≠ none ∧ (addSet f 0 "g" [1, 2147483648] fr true "A").1 = f :=
+  addSet_refuses_overflow f 0 "g" [1, 2147483648] fr true "A" 2147483648 (by simp) (by decide)
+
+example : exFile2.vars.lookup ("s", "g", "N") = some (buildVariable 2 exFrame [3, 5])
+    ∧ exFile2.vars.lookup ("s", "g", "EN") = some (buildVariable 6 exFrame [4])
+    ∧ ("s", "g") ∈ exFile2.groups ∧ (exFile2.geoms.lookup "g").isSome = true
+    ∧ colIdx exFrame.cols ["d", "q"] = some [3, 5] := by decide
+example : (readFrame exFile2 Session.init
+    [.makeMesh "g" (some "s"), .filterNodes "FIX", .joinCoords, .joinVar "N" none (some ["dd", "qq"]),
+     .joinVar "EN" (some "s") (some ["pp"])]).2
+    = .ok (["x", "y", "z", "dd", "qq", "pp"],
+        [((2, 1), [some (.v 0), some (.v 0), some (.v 0), some (.v 10), some (.v 1), some (.v 103)]),
+         ((2, 3), [some (.v 0), some (.v 1), some (.v 0), some (.v 30), some .nan, some (.v 105)]),
+         ((7, 1), [some (.v 0), some (.v 0), some (.v 0), some (.v 10), some (.v 1), some (.v 100)]),
+         ((7, 3), [some (.v 0), some (.v 1), some (.v 0), some (.v 30), some .nan, some (.v 104)])]) := by decide
+-- hypotheses `hdisj` / `hst` of the step theorems on a session that already has joined columns
+example : (["dd", "qq"].any (fun l => ["x", "y", "z"].contains l)) = false
+    ∧ pickState none (some "s") = some "s" ∧ pickState (some "s") none = some "s" := by decide
+-- sets_persist_addSet: a second set of the same kind under another name leaves the first look-up alone
+example : ((addSet exFile2 0 "g" [5] exFrame true "LOAD").1.geoms.lookup "g").bind (fun g => setIds g 0 "FIX")
+    = some [3, 1] := by decide
 
 end PylifeVerif.C20
